@@ -138,28 +138,74 @@ theorem prefix_ok (P : Params) (pre : List Op) (hwf : WF pre) :
       exact List.mem_map.2 ⟨p, (emitted_eq_reference P pre hwf hn).mem_iff.2 hp, rfl⟩
     · left; simpa using hn
 
+/-- **Per-call completeness, with eviction.** After any history, a call returns (at least) the
+arriving event paired with every earlier-arrived matching partner that is still buffered — also
+when other partners have been evicted before. -/
+theorem call_returns_what_it_owes (P : Params) (ops : List Op) :
+    owedFrom P init [] [] ops (obsTrace P ops) = true :=
+  owedFrom_trace P init [] [] ops
+
 /-- **Model meets the observation-level specification.** Every run of the model satisfies
 `runOk` — the same predicate the driver evaluates on the implementation's observations: after
 every call the pairs returned so far lie in the reference join of what has arrived, no pair
-occurs twice, and the reference join is complete as long as no partner was evicted. -/
+occurs twice, the reference join is complete as long as no partner was evicted, and every call
+returns what it owes (pairs with the partners still buffered). -/
 theorem model_meets_spec (P : Params) (ops : List Op) (hwf : WF ops) :
     runOk P ops (obsTrace P ops) = true := by
   simp only [runOk, Bool.and_eq_true, beq_iff_eq, List.all_eq_true, List.mem_range]
-  refine ⟨by simp [obsTrace, trace_length], fun n _ => ?_⟩
+  refine ⟨⟨by simp [obsTrace, trace_length], fun n _ => ?_⟩, owedFrom_trace P init [] [] ops⟩
   have : (obsTrace P ops).take n = obsTrace P (ops.take n) := by
     unfold obsTrace; rw [← List.map_take, trace_take]
   rw [this]
   exact prefix_ok P (ops.take n) (wf_take hwf n)
 
+/-- **`StreamJoinManager`, one join, any routing.** What the result handler of a registered join
+receives during each manager call is what its node returns for the routed call; calls the routing
+does not hand to the join deliver nothing; so the manager-level observations of that join satisfy
+the specification — whatever the routing function `rt` is. -/
+theorem routed_meets_spec {M : Type} (rt : M → Option Op) (P : Params) (ms : List M)
+    (hwf : WF (ms.filterMap rt)) :
+    mgrOkG rt P ms ((routedTrace rt P init ms).map (fun out => out.map idPair)) = true := by
+  simp only [mgrOkG, Bool.and_eq_true]
+  refine ⟨unroutedSilentG_routedTrace rt P init ms _ rfl, ?_⟩
+  rw [routedObsG_routedTrace]
+  exact model_meets_spec P (ms.filterMap rt) hwf
+
 /-- **`StreamJoinManager`.** With one registered join, what the result handler receives during
 each manager call is what the node returns for the routed call; calls for other streams deliver
 nothing; so the manager-level observations satisfy the specification as well. -/
 theorem manager_meets_spec (P : Params) (ms : List MOp) (hwf : WF (ms.filterMap route)) :
-    mgrOk P ms (mgrObsTrace P ms) = true := by
-  simp only [mgrOk, mgrObsTrace, Bool.and_eq_true]
-  refine ⟨unroutedSilent_mgrTrace P init ms _ rfl, ?_⟩
-  rw [routedObs_mgrTrace]
-  exact model_meets_spec P (ms.filterMap route) hwf
+    mgrOk P ms (mgrObsTrace P ms) = true :=
+  routed_meets_spec route P ms hwf
+
+/-- **`StreamJoinManager` with any number of registered joins.** For every list of joins (any
+stream names — shared between joins in the same or in different roles —, any windows, any
+conditions) and every history of `process_event` / `update_watermark` calls on the manager: during
+each call every join's handler receives exactly one (possibly empty) batch, and the batches of
+**each join** satisfy the specification with respect to **that join's own** reference join (events
+of its left stream ⋈ events of its right stream): within the reference, no pair twice, complete
+while none of its partners was evicted, silent on calls for streams it does not consume.
+Hypothesis: event ids are unique within each stream a join consumes. -/
+theorem multi_manager_meets_spec (js : List JoinDef) (ms : List JOp)
+    (hwf : ∀ j ∈ js, WF (joinOps j ms)) :
+    multiOk js ms (multiObsTrace js ms) = true := by
+  unfold multiObsTrace
+  induction js with
+  | nil =>
+    simp only [multiOk, List.map_nil, List.length_map, multiTrace_length, beq_self_eq_true,
+      Bool.true_and]
+    exact multiTrace_nil ms _ rfl
+  | cons j js ih =>
+    simp only [List.map_cons, multiOk, heads_multiTrace, tails_multiTrace, Bool.and_eq_true]
+    exact ⟨routed_meets_spec _ j.P ms (hwf j (by simp)), ih (fun j' hj' => hwf j' (by simp [hj']))⟩
+
+/-- the joins of one manager are independent: the batches of the first registered join are its
+single-join trace, whatever else is registered -/
+theorem multi_first_column (j : JoinDef) (js : List JoinDef) (ms : List JOp) :
+    heads (multiObsTrace (j :: js) ms) =
+      some ((routedTrace (routeJ j.l j.r) j.P init ms).map (fun out => out.map idPair)) := by
+  unfold multiObsTrace
+  simp only [List.map_cons, heads_multiTrace]
 
 /-! ### Non-vacuity: concrete histories meeting the hypotheses, with non-trivial results -/
 
@@ -193,6 +239,17 @@ def exC : List Op := [.left l0, .wm 8, .right r0]
 example : WF exC ∧ noPartnerEvicted exP exC = false := by decide
 example : emitted exP exC = [] ∧ refJoin exP (lefts exC) (rights exC) = [(l0, r0)] := by decide
 
+/-- after a partner eviction the per-call clause is still in force: `l4` arrives after `l0` was
+evicted, and the pair `(l4, r0)` is owed (and returned) by the call that delivers `r0`; a run
+that drops it passes the three prefix clauses (completeness is lifted: `l0` was a partner of `r0`)
+but not `runOk` -/
+def l4 : Ev := ⟨4, 6, some 1, 0⟩
+def exE : List Op := [.left l0, .wm 8, .left l4, .right r0]
+
+example : owed exP (final exP init (exE.take 3)) [l0, l4] [] (.right r0) = [(4, 0)] := by decide
+example : obsTrace exP exE = [[], [], [], [(4, 0)]] := by decide
+example : runOk exP exE [[], [], [], []] = false ∧ prefixOk exP exE [[], [], [], []] = true := by decide
+
 /-- ... stated as a theorem: without the eviction hypothesis the equality fails (the emitted pairs
 are then only a part of the reference join, by `emitted_subset_reference`). -/
 theorem eviction_hypothesis_needed :
@@ -215,6 +272,25 @@ theorem no_duplicates_needs_unique_ids :
 
 example : (obsTrace { W := 2, cond := fun _ _ => true } exD) =
     [[], [], [], [(7, 7)], [(0, 1)], [(0, 2)], [], [(0, 2)]] := by decide
+
+/-- several joins on one manager sharing streams in different roles: stream 1 is the right input
+of join 0, the left input of joins 1 and 2; stream 0 is the left input of join 0 and the right
+input of join 2; stream 3 is consumed by nobody -/
+def exJ : List JoinDef :=
+  [⟨0, 1, exP⟩, ⟨1, 2, { W := 2, cond := fun _ _ => true }⟩, ⟨1, 0, { W := 1, cond := fun _ _ => true }⟩]
+def exMs : List JOp :=
+  [.ev 0 l0, .ev 1 r0, .ev 2 ⟨0, 8, some 1, 0⟩, .wm 3 100, .ev 1 ⟨5, 6, some 1, 9⟩, .ev 3 l1, .wm 2 7, .ev 0 l1]
+
+example : ∀ j ∈ exJ, WF (joinOps j exMs) := by decide
+example : multiObsTrace exJ exMs =
+    [[[], [], []], [[(0, 0)], [], []], [[], [(0, 0)], []], [[], [], []],
+     [[(0, 5)], [(5, 0)], [(5, 0)]], [[], [], []], [[], [], []], [[(1, 5)], [], [(0, 1), (5, 1)]]] := by decide
+example : multiOk exJ exMs (multiObsTrace exJ exMs) = true := by decide
+/-- the specification rejects a manager that feeds stream 1 to the right side of every join (the
+batches of joins 1 and 2 would be empty although their reference joins are not) -/
+example : multiOk exJ exMs
+    [[[], [], []], [[(0, 0)], [], []], [[], [], []], [[], [], []],
+     [[(0, 5)], [], []], [[], [], []], [[], [], []], [[(1, 5)], [], []]] = false := by decide
 
 /-- manager level: traffic of an unrelated stream is silent -/
 example : mgrObsTrace exP [.ev .left l0, .ev .other r0, .wm .other 100, .ev .right r0] =
